@@ -182,6 +182,50 @@ def check_lib_to_ref(case):
     return [], forms, "ok"
 
 
+def check_pairs_lib_to_ref(item):
+    """string b written after string a by ONE library encoder (same stanza / next stanza / after a stanza that failed to
+    encode): the reference decoder must read the tree that was given."""
+    ia, mode = item
+    a = c01.PAIR_STRINGS[ia]
+    vs = []
+    n = 0
+    for b in c01.PAIR_STRINGS:
+        rcase = {"part": "pairs", "string_pair": [a, b], "mode": mode}
+        enc = WriteEncoder(TokenDictionary())
+        if mode == "same-stanza":
+            trees = [("iq", (("x", a), ("y", b)), None, ())]
+        elif mode == "next-stanza":
+            trees = [("iq", (("x", a),), None, ()), ("iq", (("y", b),), None, ())]
+        else:
+            trees = [None, ("iq", (("y", b),), None, ())]
+        for t in trees:
+            n += 1
+            if t is None:
+                try:
+                    enc.protocolTreeNodeToBytes(to_node(("iq", (("x", a),), None, ())).__class__("iq", {"x": a, "z": 5}))
+                except Exception:
+                    pass
+                continue
+            if not well_formed(t):
+                continue
+            try:
+                wire = bytes(enc.protocolTreeNodeToBytes(to_node(t)))
+            except Exception as e:
+                break            # C01 reports encoder failures
+            try:
+                got = ref.decode(wire)
+            except ref.FormatError as e:
+                vs.append(("C02:pairs:invalid-frame", "%s: %r then %r: bytes are not a valid frame for the reference decoder: %s" % (mode, a, b, e), rcase, str(e)))
+                break
+            d = plain_diff(got, t)
+            if d:
+                vs.append(("C02:pairs:different-tree", "%s: %r then %r: reference decoder reads a different tree: %s" % (mode, a, b, d), rcase, d))
+                break
+        if vs:
+            break
+    return vs, n
+
+
 def run_lib_to_ref_chunk(chunk):
     vs, n, forms_total, nontrivial, outcomes = [], 0, {}, [], set()
     for case in chunk:
@@ -415,6 +459,9 @@ def run(ctx):
         nontrivial.update(nt)
         l2r_outcomes.update(oc)
     ctx.add_violations(late)
+    for v, n in ctx.pimap(check_pairs_lib_to_ref, c01.pair_items(), 4):
+        l2r += n
+        ctx.add_violations(v)
     ctx.sample({"part": "lib-to-ref", "tree": small[0]["tree"]})
 
     # ---- part 3 --------------------------------------------------------------------------------
@@ -492,6 +539,8 @@ def replay(ctx, case):
     part = case.get("part")
     if part == "dictionary":
         return check_dictionary()[0]
+    if part == "pairs":
+        return check_pairs_lib_to_ref((c01.PAIR_STRINGS.index(case["string_pair"][0]), case["mode"]))[0]
     if part == "lib-to-ref":
         return check_lib_to_ref({"cls": case["cls"], "tree": case["tree"]})[0]
     tree = expand(case["tree"])
